@@ -354,6 +354,8 @@ def to_expr(n, rich=False):
     if k == "ArraySubscriptExpr":
         return ("sub", to_expr(ks[0], rich), [to_expr(ks[1], rich)])
     if k == "InitListExpr":
+        if rich and len(ks) == 1 and strip(ks[0]).get("kind") == "InitListExpr" and "array<" in n.get("type", {}).get("qualType", ""):
+            return to_expr(ks[0], rich)          # std::array{...}: the braces of the wrapped C array member
         return ("init", [to_expr(c, rich) for c in ks])
     if k == "ParenListExpr":
         if len(ks) == 1:
